@@ -56,18 +56,37 @@ def nameIs (i : Nat) (s : String) : Bool :=
 
 def specialIds : List Nat := [L.unionId, L.unionTypeId, L.optionalId, L.literalId, L.finalId, L.classVarId, L.callableId]
 
-/-- The special forms are pairwise different objects, `origin` fixes them, they carry their names, none of them
-    is a value of GENERIC_TYPE_MAP or the typing origin of a row, `tuple` is a tuple, `Any` / `None` / `...` are
-    not qualifiers. -/
-def specialOk : Bool :=
-  (specialIds L).Nodup && stableId L L.unionId && stableId L L.unionTypeId && stableId L L.literalId &&
-  stableId L L.finalId && stableId L L.optionalId &&
-  nameIs L L.unionId "Union" && nameIs L L.unionTypeId "UnionType" && nameIs L L.optionalId "Optional" &&
-  nameIs L L.literalId "Literal" && nameIs L L.finalId "Final" &&
-  L.gtm.all (fun e => !(specialIds L).contains e.2.1) &&
-  L.rows.all (fun r => match r.origin with | some o => !(specialIds L).contains o | none => true) &&
-  L.tri .tuple L.tupleId == 1 && !(specialIds L).contains L.anyId && !(specialIds L).contains L.noneTypeId &&
+/-- The special forms are pairwise different objects; `Any`, `NoneType`, `...` are none of them. -/
+def idsOk : Bool :=
+  (specialIds L).Nodup && !(specialIds L).contains L.anyId && !(specialIds L).contains L.noneTypeId &&
   !(specialIds L).contains L.ellipsisId && L.anyId != L.ellipsisId && L.noneTypeId != L.ellipsisId
+
+/-- `origin` fixes the special forms. -/
+def stableOk : Bool :=
+  stableId L L.unionId && stableId L L.unionTypeId && stableId L L.literalId && stableId L L.finalId &&
+  stableId L L.optionalId
+
+/-- … and they carry the names the name-based predicates look for. -/
+def namesOk : Bool :=
+  nameIs L L.unionId "Union" && nameIs L L.unionTypeId "UnionType" && nameIs L L.optionalId "Optional" &&
+  nameIs L L.literalId "Literal" && nameIs L L.finalId "Final"
+
+/-- No special form is a value of GENERIC_TYPE_MAP or the typing origin of a row. -/
+def gtmAvoidsSpecial : Bool := L.gtm.all fun e => !(specialIds L).contains e.2.1
+def rowAvoidsSpecial (r : Row) : Bool :=
+  match r.origin with
+  | some o => !(specialIds L).contains o
+  | none => true
+def originsAvoidSpecial : Bool := L.rows.all (rowAvoidsSpecial L)
+
+/-- No special form is a tuple class; `NoneType` is recognised as None. -/
+def miscOk : Bool :=
+  L.tri .tuple L.unionId != 1 && L.tri .tuple L.unionTypeId != 1 && L.tri .tuple L.literalId != 1 &&
+  L.tri .tuple L.finalId != 1 && L.flag (·.isNone) L.noneTypeId
+
+def specialOk : Bool :=
+  idsOk L && stableOk L && namesOk L && gtmAvoidsSpecial L && originsAvoidSpecial L && miscOk L &&
+  L.tri .tuple L.tupleId == 1
 
 def adequate : Bool := rowsOk L && originsOk L && gtmOk L && collectionsOk L && specialOk L
 
@@ -278,7 +297,7 @@ theorem istupletype_agrees (hA : adequate L = true) {a : Ann} (hd : directOk a =
   · have ht : L.tri .tuple L.tupleId = 1 := by
       have := adequate_special L hA
       simp only [specialOk, Bool.and_eq_true, beq_iff_eq] at this
-      exact this.1.1.1.1.1.2
+      exact this.2
     simp [Ann.isBaseId, h, ht]
   · simp [Ann.isBaseId, h]
 
@@ -346,5 +365,1139 @@ theorem ismappingtype_agrees (hA : adequate L = true) {a : Ann} (hd : directOk a
 theorem predA_never_raises (hA : adequate L = true) (X : Target) {a : Ann} (hd : directOk a = true) {c : Nat}
     (hr : ResolvesTo L a c) : (predA L X a).isSome = true := by
   rw [predA_agrees L hA X hd hr, specSub_resolved L hr]; rfl
+
+
+/-! ## 5. Group B (`_safe_issubclass` on the object itself) -/
+
+/-- On a class that is its own origin and is not remapped, a Group B predicate is the runtime's answer. -/
+theorem predB_agrees_class (X : Target) {i : Nat} (hc : L.isClass i = true) (ho : L.getOrigin i = none)
+    (hg : L.gtmGet i = none) : some (predB L X (.base i)) = specSub L X (.base i) := by
+  simp [specSub, resolvedClass, strip, tyOrigin, Lattice.originOr, Lattice.gtmOr, ho, hg, hc, predB]
+
+/-- Asked directly, a Group B predicate answers `False` for everything that is not a bare class: NewType and alias
+    wrappers, subscripted generics, … (no `origin`, no resolution). -/
+theorem predB_nonbase (X : Target) {a : Ann} (h : a.isBase = false) : predB L X a = false := by
+  cases a <;> simp_all [predB, Ann.isBase]
+
+/-! ## 6. `unwrap` -/
+
+/-- Annotations below the qualifiers: NewType / alias / TypeVar-bound chains over anything but `Final` / `ClassVar`
+    (bare or subscripted), which typing only allows outermost. -/
+def innerOk : Ann → Bool
+  | .newtype a => innerOk a
+  | .alias a => innerOk a
+  | .tvarBound a => innerOk a
+  | .final _ => false
+  | .classvar _ => false
+  | .base i => i != L.finalId && i != L.classVarId
+  | .sub g _ => g != L.finalId && g != L.classVarId
+  | _ => true
+
+/-- Legal nestings of the qualifiers.  `ClassVar[X]` with `X` a Literal (or an alias of one) is excluded: there the
+    code does not strip the ClassVar (`unwrap_classvar_literal_witness`). -/
+def legal : Ann → Bool
+  | .final a => innerOk L a
+  | .classvar a => innerOk L a && !isliteralM L (.classvar a)
+  | a => innerOk L a
+
+/-- `callableStep ∘ genericsStep ∘ getOriginOr`: the tail of `origin` after the wrappers are gone. -/
+def tailM (w : Ann) : Ann := callableStep L (genericsStep L (getOriginOr L w))
+
+theorem special_ne (hA : adequate L = true) :
+    L.unionId ≠ L.finalId ∧ L.unionTypeId ≠ L.finalId ∧ L.literalId ≠ L.finalId ∧ L.callableId ≠ L.finalId ∧
+    L.anyId ≠ L.finalId ∧ L.anyId ≠ L.classVarId ∧ L.literalId ≠ L.unionId ∧ L.literalId ≠ L.unionTypeId ∧
+    L.finalId ≠ L.literalId ∧ L.callableId ≠ L.literalId ∧ L.classVarId ≠ L.finalId ∧ L.classVarId ≠ L.literalId := by
+  have h := adequate_special L hA
+  simp only [specialOk, idsOk, specialIds, Bool.and_eq_true, decide_eq_true_eq, List.nodup_cons, List.mem_cons,
+    List.contains_cons, Bool.not_eq_true', Bool.or_eq_false_iff, beq_eq_false_iff_ne, bne_iff_ne, ne_eq,
+    not_or] at h
+  obtain ⟨⟨⟨⟨⟨⟨⟨⟨hnd, hany⟩, _⟩, _⟩, _⟩, _⟩, _⟩, _⟩, _⟩ := h
+  simp only [List.not_mem_nil, List.contains_nil, not_false_eq_true, and_true, List.nodup_nil] at hnd hany
+  refine ⟨?_, ?_, ?_, ?_, ?_, ?_, ?_, ?_, ?_, ?_, ?_, ?_⟩ <;> (intro heq; simp_all)
+
+
+theorem resolve_idem : ∀ a : Ann, resolveSupertype (resolveSupertype a) = resolveSupertype a
+  | .newtype a => by simpa [resolveSupertype] using resolve_idem a
+  | .base _ => rfl | .sub _ _ => rfl | .union _ _ => rfl | .literal _ => rfl | .final _ => rfl
+  | .classvar _ => rfl | .alias _ => rfl | .tvarBound _ => rfl | .tvarConstr _ => rfl | .tvarFree => rfl
+  | .fref _ _ => rfl
+
+theorem originM_resolve (a : Ann) : originM L a = originM L (resolveSupertype a) := by
+  unfold originM; rw [resolve_idem]
+
+theorem resolve_inner : ∀ a : Ann, innerOk L a = true →
+    innerOk L (resolveSupertype a) = true ∧ (resolveSupertype a).isNewtype = false
+  | .newtype a, h => by simpa [resolveSupertype] using resolve_inner a (by simpa [innerOk] using h)
+  | .base _, h => ⟨h, rfl⟩ | .sub _ _, h => ⟨h, rfl⟩ | .union _ _, h => ⟨h, rfl⟩ | .literal _, h => ⟨h, rfl⟩
+  | .final _, h => ⟨h, rfl⟩ | .classvar _, h => ⟨h, rfl⟩ | .alias _, h => ⟨h, rfl⟩
+  | .tvarBound _, h => ⟨h, rfl⟩ | .tvarConstr _, h => ⟨h, rfl⟩ | .tvarFree, h => ⟨h, rfl⟩ | .fref _ _, h => ⟨h, rfl⟩
+
+/-- `origin` fixes a stable special form. -/
+theorem stable_tail {s : Nat} (h : stableId L s = true) : callableStep L (genericsStep L (.base s)) = .base s := by
+  unfold stableId at h
+  simp only [Bool.and_eq_true, Option.isNone_iff_eq_none] at h
+  have ho : L.originOr s = s := by simp [Lattice.originOr, h.1]
+  have := originM_core L (a := .base s) rfl (c0 := s) (by simp [tyOrigin, ho])
+  rw [← this]
+  exact isBaseId_eq h.2
+
+theorem stable_of (hA : adequate L = true) :
+    stableId L L.unionId = true ∧ stableId L L.unionTypeId = true ∧ stableId L L.literalId = true ∧
+    stableId L L.finalId = true ∧ stableId L L.optionalId = true := by
+  have h := adequate_special L hA
+  simp only [specialOk, stableOk, Bool.and_eq_true] at h
+  exact ⟨h.1.1.1.1.1.2.1.1.1.1, h.1.1.1.1.1.2.1.1.1.2, h.1.1.1.1.1.2.1.1.2, h.1.1.1.1.1.2.1.2, h.1.1.1.1.1.2.2⟩
+
+/-- The id `origin` computes from a base id is never one of the special forms unless it started there. -/
+theorem gtmOr_originOr_not_special (hA : adequate L = true) {i s : Nat} (hs : s ∈ specialIds L) (hi : i ≠ s) :
+    L.gtmOr (L.originOr i) ≠ s := by
+  have hsp := adequate_special L hA
+  simp only [specialOk, Bool.and_eq_true] at hsp
+  have hgtm : gtmAvoidsSpecial L = true := hsp.1.1.1.2
+  have hor : originsAvoidSpecial L = true := hsp.1.1.2
+  have h1 : L.originOr i ≠ s := by
+    unfold Lattice.originOr Lattice.getOrigin
+    cases hrow : L.row i with
+    | none => simpa using hi
+    | some r =>
+      cases ho : r.origin with
+      | none => simpa [ho] using hi
+      | some o =>
+        have := (List.all_eq_true.mp hor) r (row_mem L hrow)
+        simp only [rowAvoidsSpecial, ho, Bool.not_eq_true', List.contains_eq_mem, decide_eq_false_iff_not] at this
+        simp only [ho]
+        intro heq; rw [heq] at this; exact this hs
+  unfold Lattice.gtmOr
+  cases hg : L.gtmGet (L.originOr i) with
+  | none => simpa using h1
+  | some v =>
+    obtain ⟨e, he, _, hv⟩ := gtmGet_mem L hg
+    have := (List.all_eq_true.mp hgtm) e he
+    simp only [Bool.not_eq_true', List.contains_eq_mem, decide_eq_false_iff_not, hv] at this
+    intro heq; simp only at heq; rw [heq] at this; exact this hs
+
+theorem final_mem_special : L.finalId ∈ specialIds L := by simp [specialIds]
+theorem literal_mem_special : L.literalId ∈ specialIds L := by simp [specialIds]
+theorem callable_mem_special : L.callableId ∈ specialIds L := by simp [specialIds]
+
+/-- What `origin` computes from a base id `i` is the special form `s` only if `i` is. -/
+theorem tail_base_not (hA : adequate L = true) {i s : Nat} (hs : s ∈ specialIds L) (hi : i ≠ s)
+    (hcs : L.callableId ≠ s) : (callableStep L (genericsStep L (.base (L.originOr i)))).isBaseId s = false := by
+  rw [genericsStep_base L (adequate_gtm L hA)]
+  unfold callableStep
+  have := gtmOr_originOr_not_special L hA hs hi
+  by_cases hc : iscallableM L (.base (L.gtmOr (L.originOr i))) = true
+  · simp [hc, Ann.isBaseId, hcs]
+  · simp [hc, Ann.isBaseId, this]
+
+theorem tailM_nonbase {w : Ann} (h : (getOriginOr L w).isBase = false) : tailM L w = getOriginOr L w := by
+  unfold tailM; rw [genericsStep_nonbase L h, callableStep_nonbase L h]
+
+/-- Below the qualifiers, `origin` is never `Final`. -/
+theorem tail_not_final (hA : adequate L = true) : ∀ w : Ann, innerOk L w = true →
+    (tailM L w).isBaseId L.finalId = false := by
+  intro w hw
+  obtain ⟨hu, hut, hl, hc, _, _, _, _, _, _, _, _⟩ := special_ne L hA
+  obtain ⟨su, sut, sl, _, _⟩ := stable_of L hA
+  cases w with
+  | base i =>
+    simp only [innerOk, Bool.and_eq_true, bne_iff_ne, ne_eq] at hw
+    exact tail_base_not L hA (final_mem_special L) hw.1 hc
+  | sub g args =>
+    simp only [innerOk, Bool.and_eq_true, bne_iff_ne, ne_eq] at hw
+    exact tail_base_not L hA (final_mem_special L) hw.1 hc
+  | union sp ms =>
+    cases sp <;> simp [tailM, getOriginOr, stable_tail L su, stable_tail L sut, Ann.isBaseId, hu, hut]
+  | literal h => simp [tailM, getOriginOr, stable_tail L sl, Ann.isBaseId, hl]
+  | final a => simp [innerOk] at hw
+  | classvar a => simp [innerOk] at hw
+  | newtype a => rw [tailM_nonbase L (by rfl)]; rfl
+  | alias a => rw [tailM_nonbase L (by rfl)]; rfl
+  | tvarBound a => rw [tailM_nonbase L (by rfl)]; rfl
+  | tvarConstr a => rw [tailM_nonbase L (by rfl)]; rfl
+  | tvarFree => rw [tailM_nonbase L (by rfl)]; rfl
+  | fref l b => rw [tailM_nonbase L (by rfl)]; rfl
+
+
+theorem isfinal_inner (hA : adequate L = true) (a : Ann) (h : innerOk L a = true) : isfinalM L a = false := by
+  obtain ⟨hr, hn⟩ := resolve_inner L a h
+  unfold isfinalM
+  rw [originM_resolve]
+  generalize resolveSupertype a = r at hr hn
+  cases r with
+  | alias v => exact tail_not_final L hA v (by simpa [innerOk] using hr)
+  | newtype x => simp [Ann.isNewtype] at hn
+  | classvar x => simp [innerOk] at hr
+  | final x => simp [innerOk] at hr
+  | base i => exact tail_not_final L hA (.base i) hr
+  | sub g args => exact tail_not_final L hA (.sub g args) hr
+  | union sp ms => exact tail_not_final L hA (.union sp ms) hr
+  | literal hl => exact tail_not_final L hA (.literal hl) hr
+  | tvarBound b => exact tail_not_final L hA (.tvarBound b) hr
+  | tvarConstr cs => exact tail_not_final L hA (.tvarConstr cs) hr
+  | tvarFree => exact tail_not_final L hA .tvarFree hr
+  | fref l b => exact tail_not_final L hA (.fref l b) hr
+
+theorem isclassvar_inner (a : Ann) (h : innerOk L a = true) : isclassvartypeM L a = false := by
+  obtain ⟨hr, hn⟩ := resolve_inner L a h
+  unfold isclassvartypeM
+  generalize resolveSupertype a = r at hr hn
+  cases r <;> simp_all [isClassVarResolved, innerOk]
+
+theorem shouldUnwrap_inner (hA : adequate L = true) (a : Ann) (h : innerOk L a = true) :
+    shouldUnwrapM L a = false := by
+  simp [shouldUnwrapM, isfinal_inner L hA a h, isclassvar_inner L a h]
+
+/-- Below the qualifiers `unwrap` removes every NewType / alias / TypeVar layer. -/
+theorem unwrap_inner (hA : adequate L = true) : ∀ a : Ann, innerOk L a = true → unwrapM L a = some (core L a)
+  | .newtype a, h => by
+    have hs := shouldUnwrap_inner L hA (.newtype a) h
+    simp only [unwrapM, hs, core, Bool.false_eq_true, if_false]
+    exact unwrap_inner hA a (by simpa [innerOk] using h)
+  | .alias a, h => by
+    have hs := shouldUnwrap_inner L hA (.alias a) h
+    simp only [unwrapM, hs, core, Bool.false_eq_true, if_false]
+    exact unwrap_inner hA a (by simpa [innerOk] using h)
+  | .tvarBound b, h => by
+    simp only [unwrapM, core]
+    exact unwrap_inner hA b (by simpa [innerOk] using h)
+  | .tvarConstr _, _ => rfl
+  | .tvarFree, _ => rfl
+  | .base i, h => by
+    have hs := shouldUnwrap_inner L hA (.base i) h
+    simp [unwrapM, hs, core]
+  | .sub _ _, _ => rfl
+  | .union _ _, _ => rfl
+  | .literal _, _ => rfl
+  | .fref _ _, _ => rfl
+  | .final _, h => by simp [innerOk] at h
+  | .classvar _, h => by simp [innerOk] at h
+
+theorem originM_final (hA : adequate L = true) (x : Ann) : originM L (.final x) = .base L.finalId := by
+  have : originM L (.final x) = callableStep L (genericsStep L (.base L.finalId)) := rfl
+  rw [this, stable_tail L (stable_of L hA).2.2.2.1]
+
+theorem shouldUnwrap_final (hA : adequate L = true) (x : Ann) : shouldUnwrapM L (.final x) = true := by
+  obtain ⟨_, _, _, _, _, _, _, _, hfl, _, _, _⟩ := special_ne L hA
+  simp [shouldUnwrapM, isliteralM, isfinalM, originM_final L hA, Ann.isBaseId, hfl]
+
+/-- **`unwrap` strips every wrapper** — Final / ClassVar outermost, then NewType / alias / TypeVar-bound layers in any
+    interleaving and of any length — and returns the annotation they stand for. -/
+theorem unwrap_strips (hA : adequate L = true) {a : Ann} (h : legal L a = true) : unwrapM L a = some (core L a) := by
+  cases a with
+  | final x =>
+    simp only [unwrapM, shouldUnwrap_final L hA, if_true, core]
+    exact unwrap_inner L hA x (by simpa [legal] using h)
+  | classvar x =>
+    simp only [legal, Bool.and_eq_true, Bool.not_eq_true'] at h
+    have hs : shouldUnwrapM L (.classvar x) = true := by
+      simp [shouldUnwrapM, h.2, isclassvartypeM, resolveSupertype, isClassVarResolved]
+    simp only [unwrapM, hs, if_true, core]
+    exact unwrap_inner L hA x h.1
+  | base i => exact unwrap_inner L hA _ h
+  | sub g args => exact unwrap_inner L hA _ h
+  | union sp ms => exact unwrap_inner L hA _ h
+  | literal hn => exact unwrap_inner L hA _ h
+  | newtype x => exact unwrap_inner L hA _ h
+  | alias x => exact unwrap_inner L hA _ h
+  | tvarBound b => exact unwrap_inner L hA _ h
+  | tvarConstr cs => exact unwrap_inner L hA _ h
+  | tvarFree => exact unwrap_inner L hA _ h
+  | fref l b => exact unwrap_inner L hA _ h
+
+/-- What `unwrap` returns carries no wrapper. -/
+theorem core_not_wrapper : ∀ a : Ann, isWrapper (core L a) = false
+  | .final a => by simpa [core] using core_not_wrapper a
+  | .classvar a => by simpa [core] using core_not_wrapper a
+  | .alias a => by simpa [core] using core_not_wrapper a
+  | .newtype a => by simpa [core] using core_not_wrapper a
+  | .tvarBound a => by simpa [core] using core_not_wrapper a
+  | .tvarConstr _ => rfl
+  | .tvarFree => rfl
+  | .base _ => rfl
+  | .sub _ _ => rfl
+  | .union _ _ => rfl
+  | .literal _ => rfl
+  | .fref _ _ => rfl
+
+/-- **`unwrap` is idempotent** (every annotation, legal or not). -/
+theorem unwrap_idem (hA : adequate L = true) : ∀ (a b : Ann), unwrapM L a = some b → unwrapM L b = some b
+  | .final a, b, h => by
+    by_cases hs : shouldUnwrapM L (.final a) = true
+    · simp only [unwrapM, hs, if_true] at h; exact unwrap_idem hA a b h
+    · have hs' : _ = false := Bool.eq_false_iff.mpr hs
+      simp only [unwrapM, hs', Bool.false_eq_true, if_false, Option.some.injEq] at h; subst h; simp [unwrapM, hs']
+  | .classvar a, b, h => by
+    by_cases hs : shouldUnwrapM L (.classvar a) = true
+    · simp only [unwrapM, hs, if_true] at h; exact unwrap_idem hA a b h
+    · have hs' : _ = false := Bool.eq_false_iff.mpr hs
+      simp only [unwrapM, hs', Bool.false_eq_true, if_false, Option.some.injEq] at h; subst h; simp [unwrapM, hs']
+  | .alias a, b, h => by
+    by_cases hs : shouldUnwrapM L (.alias a) = true
+    · simp [unwrapM, hs] at h
+    · have hs' : _ = false := Bool.eq_false_iff.mpr hs
+      simp only [unwrapM, hs', Bool.false_eq_true, if_false] at h; exact unwrap_idem hA a b h
+  | .newtype a, b, h => by
+    by_cases hs : shouldUnwrapM L (.newtype a) = true
+    · simp [unwrapM, hs] at h
+    · have hs' : _ = false := Bool.eq_false_iff.mpr hs
+      simp only [unwrapM, hs', Bool.false_eq_true, if_false] at h; exact unwrap_idem hA a b h
+  | .tvarBound a, b, h => by simp only [unwrapM] at h; exact unwrap_idem hA a b h
+  | .tvarConstr cs, b, h => by simp only [unwrapM, Option.some.injEq] at h; subst h; rfl
+  | .tvarFree, b, h => by
+    simp only [unwrapM, Option.some.injEq] at h; subst h
+    obtain ⟨_, _, _, _, haf, hac, _⟩ := special_ne L hA
+    have hi : innerOk L (.base L.anyId) = true := by simp [innerOk, haf, hac]
+    simpa [core] using unwrap_inner L hA (.base L.anyId) hi
+  | .base i, b, h => by
+    by_cases hs : shouldUnwrapM L (.base i) = true
+    · simp [unwrapM, hs] at h
+    · have hs' : _ = false := Bool.eq_false_iff.mpr hs
+      simp only [unwrapM, hs', Bool.false_eq_true, if_false, Option.some.injEq] at h; subst h; simp [unwrapM, hs']
+  | .sub g args, b, h => by simp only [unwrapM, Option.some.injEq] at h; subst h; rfl
+  | .union sp ms, b, h => by simp only [unwrapM, Option.some.injEq] at h; subst h; rfl
+  | .literal hn, b, h => by simp only [unwrapM, Option.some.injEq] at h; subst h; rfl
+  | .fref l br, b, h => by simp only [unwrapM, Option.some.injEq] at h; subst h; rfl
+
+
+/-! ## 7. The class-valued predicates as the dispatch tables use them: after `unwrap` -/
+
+theorem directOk_of_core {a : Ann} (h : coreForm a = true) : directOk a = true := by
+  cases a <;> simp_all [coreForm, directOk]
+
+/-- **All 13 origin-based predicates after `unwrap`**: Final / ClassVar outermost, then NewType / alias / TypeVar-bound
+    layers in ANY interleaving and of any length over a base or a generic in either spelling. -/
+theorem predA_unwrapped_agrees (hA : adequate L = true) (X : Target) {a : Ann} (hl : legal L a = true)
+    (hk : coreForm (core L a) = true) {c : Nat} (hr : ResolvesTo L (core L a) c) :
+    (unwrapM L a).bind (predA L X) = specSub L X (core L a) := by
+  rw [unwrap_strips L hA hl]
+  exact predA_agrees L hA X (directOk_of_core hk) hr
+
+/-- **All 9 direct predicates after `unwrap`**, when what is wrapped is a plain class. -/
+theorem predB_unwrapped_agrees (hA : adequate L = true) (X : Target) {a : Ann} (hl : legal L a = true) {i : Nat}
+    (hk : core L a = .base i) (hc : L.isClass i = true) (ho : L.getOrigin i = none) (hg : L.gtmGet i = none) :
+    (unwrapM L a).map (predB L X) = specSub L X (core L a) := by
+  rw [unwrap_strips L hA hl, hk]
+  exact predB_agrees_class L X hc ho hg
+
+/-- NewType / alias chains only (any interleaving). -/
+def naChain : Ann → Bool
+  | .newtype a => naChain a
+  | .alias a => naChain a
+  | a => coreForm a
+
+theorem strip_eq_core : ∀ a : Ann, naChain a = true → strip a = core L a ∧ coreForm (strip a) = true
+  | .newtype a, h => by simpa [strip, core] using strip_eq_core a (by simpa [naChain] using h)
+  | .alias a, h => by simpa [strip, core] using strip_eq_core a (by simpa [naChain] using h)
+  | .base _, _ => ⟨rfl, rfl⟩
+  | .sub _ _, _ => ⟨rfl, rfl⟩
+  | .union _ _, h => by simp [naChain, coreForm] at h
+  | .literal _, h => by simp [naChain, coreForm] at h
+  | .final _, h => by simp [naChain, coreForm] at h
+  | .classvar _, h => by simp [naChain, coreForm] at h
+  | .tvarBound _, h => by simp [naChain, coreForm] at h
+  | .tvarConstr _, h => by simp [naChain, coreForm] at h
+  | .tvarFree, h => by simp [naChain, coreForm] at h
+  | .fref _ _, h => by simp [naChain, coreForm] at h
+
+theorem strip_idem : ∀ a : Ann, strip (strip a) = strip a
+  | .newtype a => by simpa [strip] using strip_idem a
+  | .alias a => by simpa [strip] using strip_idem a
+  | .base _ => rfl | .sub _ _ => rfl | .union _ _ => rfl | .literal _ => rfl | .final _ => rfl
+  | .classvar _ => rfl | .tvarBound _ => rfl | .tvarConstr _ => rfl | .tvarFree => rfl | .fref _ _ => rfl
+
+theorem resolvedClass_strip (a : Ann) : resolvedClass L (strip a) = resolvedClass L a := by
+  unfold resolvedClass; rw [strip_idem]
+
+/-- Every NewType / alias chain — `Alias(Alias(X))`, `Alias(NewType(X))`, … included — once unwrapped. -/
+theorem predA_unwrapped_chain (hA : adequate L = true) (X : Target) {a : Ann} (hn : naChain a = true)
+    (hl : legal L a = true) {c : Nat} (hr : ResolvesTo L a c) :
+    (unwrapM L a).bind (predA L X) = specSub L X a := by
+  obtain ⟨he, hc⟩ := strip_eq_core L a hn
+  have hr' : ResolvesTo L (core L a) c :=
+    ⟨by rw [← he, resolvedClass_strip]; exact hr.resolved, hr.isClass, hr.notCallable⟩
+  rw [predA_unwrapped_agrees L hA X hl (by rw [← he]; exact hc) hr']
+  rw [specSub_resolved L hr', specSub_resolved L hr]
+
+/-! ## 8. Spelling invariance of the class-valued predicates -/
+
+theorem originOr_idem (hA : adequate L = true) (g : Nat) : L.originOr (L.originOr g) = L.originOr g := by
+  have hO := adequate_origins L hA
+  cases hrow : L.row g with
+  | none =>
+    have hg : L.originOr g = g := by simp [Lattice.originOr, Lattice.getOrigin, hrow]
+    rw [hg, hg]
+  | some r =>
+    cases ho : r.origin with
+    | none =>
+      have hg : L.originOr g = g := by simp [Lattice.originOr, Lattice.getOrigin, hrow, ho]
+      rw [hg, hg]
+    | some o =>
+      have hg : L.originOr g = o := by simp [Lattice.originOr, Lattice.getOrigin, hrow, ho]
+      have := (List.all_eq_true.mp hO) r (row_mem L hrow)
+      simp only [rowOriginOk, ho, Bool.and_eq_true, beq_iff_eq] at this
+      rw [hg, this.1]
+
+theorem erase_strip : ∀ a : Ann, strip (erase L a) = erase L (strip a)
+  | .newtype a => by simpa [erase, strip] using erase_strip a
+  | .alias a => by simpa [erase, strip] using erase_strip a
+  | .base _ => by simp [erase, strip]
+  | .sub _ _ => by simp [erase, strip]
+  | .union sp _ => by cases sp <;> simp [erase, strip]
+  | .literal _ => by simp [erase, strip]
+  | .final _ => by simp [erase, strip]
+  | .classvar _ => by simp [erase, strip]
+  | .tvarBound _ => by simp [erase, strip]
+  | .tvarConstr _ => by simp [erase, strip]
+  | .tvarFree => by simp [erase, strip]
+  | .fref _ _ => by simp [erase, strip]
+
+theorem tyOrigin_erase (hA : adequate L = true) (w : Ann) : tyOrigin L (erase L w) = tyOrigin L w := by
+  cases w with
+  | union sp ms => cases sp <;> simp [erase, tyOrigin]
+  | sub g args => simp [erase, tyOrigin, originOr_idem L hA]
+  | _ => simp [erase, tyOrigin]
+
+/-- The resolved class does not depend on the spelling. -/
+theorem resolvedClass_erase (hA : adequate L = true) (a : Ann) : resolvedClass L (erase L a) = resolvedClass L a := by
+  unfold resolvedClass; rw [erase_strip, tyOrigin_erase L hA]
+
+theorem coreForm_erase (a : Ann) : coreForm (erase L a) = coreForm a := by
+  cases a with
+  | union sp ms => cases sp <;> simp [erase, coreForm]
+  | _ => simp [erase, coreForm]
+
+theorem directOk_erase : ∀ a : Ann, directOk (erase L a) = directOk a
+  | .newtype a => by simpa [erase, directOk] using directOk_erase a
+  | .alias a => by simp [erase, directOk, coreForm_erase]
+  | .base _ => by simp [erase, directOk, coreForm]
+  | .sub _ _ => by simp [erase, directOk, coreForm]
+  | .union sp _ => by cases sp <;> simp [erase, directOk, coreForm]
+  | .literal _ => by simp [erase, directOk, coreForm]
+  | .final _ => by simp [erase, directOk, coreForm]
+  | .classvar _ => by simp [erase, directOk, coreForm]
+  | .tvarBound _ => by simp [erase, directOk, coreForm]
+  | .tvarConstr _ => by simp [erase, directOk, coreForm]
+  | .tvarFree => by simp [erase, directOk, coreForm]
+  | .fref _ _ => by simp [erase, directOk, coreForm]
+
+theorem resolvesTo_erase (hA : adequate L = true) {a : Ann} {c : Nat} (hr : ResolvesTo L a c) :
+    ResolvesTo L (erase L a) c :=
+  ⟨by rw [resolvedClass_erase L hA]; exact hr.resolved, hr.isClass, hr.notCallable⟩
+
+/-- `origin` gives the same class for `typing.List[int]` and `list[int]`, `typing.Sequence[T]` and
+    `collections.abc.Sequence[T]`, under any NewType* ∘ alias? chain. -/
+theorem originM_erase (hA : adequate L = true) {a : Ann} (hd : directOk a = true) {c : Nat} (hr : ResolvesTo L a c) :
+    originM L (erase L a) = originM L a := by
+  rw [originM_resolved L hA hd hr,
+    originM_resolved L hA (by rw [directOk_erase]; exact hd) (resolvesTo_erase L hA hr)]
+
+/-- **Spelling invariance, Group A**: all thirteen are functions of `origin(a)`. -/
+theorem predA_spelling_invariant (hA : adequate L = true) (X : Target) {a : Ann} (hd : directOk a = true) {c : Nat}
+    (hr : ResolvesTo L a c) : predA L X (erase L a) = predA L X a := by
+  unfold predA; rw [originM_erase L hA hd hr]
+theorem istupletype_spelling_invariant (hA : adequate L = true) {a : Ann} (hd : directOk a = true) {c : Nat}
+    (hr : ResolvesTo L a c) : istupletypeM L (erase L a) = istupletypeM L a := by
+  unfold istupletypeM predA; rw [originM_erase L hA hd hr]
+theorem issequencetype_spelling_invariant (hA : adequate L = true) {a : Ann} (hd : directOk a = true) {c : Nat}
+    (hr : ResolvesTo L a c) : issequencetypeM L (erase L a) = issequencetypeM L a := by
+  unfold issequencetypeM predA; rw [originM_erase L hA hd hr]
+theorem iscollectiontype_spelling_invariant (hA : adequate L = true) {a : Ann} (hd : directOk a = true) {c : Nat}
+    (hr : ResolvesTo L a c) : iscollectiontypeM L (erase L a) = iscollectiontypeM L a := by
+  unfold iscollectiontypeM predA; rw [originM_erase L hA hd hr]
+theorem ismappingtype_spelling_invariant (hA : adequate L = true) {a : Ann} (hd : directOk a = true) {c : Nat}
+    (hr : ResolvesTo L a c) : ismappingtypeM L (erase L a) = ismappingtypeM L a := by
+  unfold ismappingtypeM; rw [originM_erase L hA hd hr]
+
+theorem erase_isBase (a : Ann) : (erase L a).isBase = a.isBase := by
+  cases a with
+  | union sp ms => cases sp <;> simp [erase, Ann.isBase]
+  | _ => simp [erase, Ann.isBase]
+
+/-- **Spelling invariance, Group B** (every annotation): bare objects are untouched by the erasure and everything else
+    is answered `False`. -/
+theorem predB_spelling_invariant (X : Target) (a : Ann) : predB L X (erase L a) = predB L X a := by
+  cases h : a.isBase with
+  | true => cases a <;> simp_all [Ann.isBase, erase]
+  | false => rw [predB_nonbase L X h, predB_nonbase L X (by rw [erase_isBase]; exact h)]
+
+/-! ## 9. `origin()` of a collection annotation is a concrete instantiable class of that kind -/
+
+def instantiableM : Ann → Bool
+  | .base c => L.flag (·.instantiable) c
+  | _ => false
+
+/- Full statement (FALSE on the code as it stands, see `origin_not_instantiable_witness`): for every annotation whose
+   typing origin is a builtin / collections / collections.abc class that is Iterable (`stdColl`),
+   `instantiableM (originM a)`. -/
+/-- … proved for the ABCs GENERIC_TYPE_MAP maps and for classes that are concrete themselves. -/
+theorem origin_instantiable (hA : adequate L = true) {a : Ann} (hd : directOk a = true) {c0 : Nat}
+    (ht : tyOrigin L (strip a) = some c0)
+    (h : (L.gtmGet c0).isSome = true ∨ (L.flag (·.instantiable) c0 = true ∧ L.callable c0 = false)) :
+    instantiableM L (originM L a) = true := by
+  rw [originM_direct L a hd c0 ht, genericsStep_base L (adequate_gtm L hA)]
+  cases hg : L.gtmGet c0 with
+  | some v =>
+    obtain ⟨e, he, _, hv⟩ := gtmGet_mem L hg
+    have hval := (gtm_entry L (adequate_gtm L hA) he).2.1
+    simp only [gtmValueOk, hv, Bool.and_eq_true, Bool.not_eq_true'] at hval
+    simp [Lattice.gtmOr, hg, callableStep, iscallableM, hval.2, instantiableM, hval.1.1.1.1.2]
+  | none =>
+    rcases h with h | h
+    · simp [hg] at h
+    · simp [Lattice.gtmOr, hg, callableStep, iscallableM, h.2, instantiableM, h.1]
+
+/-- A mapped ABC goes to a class of its own kind: `issubclass(origin(a), ABC)` per the runtime. -/
+theorem origin_mapped_same_kind (hA : adequate L = true) {a : Ann} (hd : directOk a = true) {c0 v : Nat}
+    (ht : tyOrigin L (strip a) = some c0) (hg : L.gtmGet c0 = some v) :
+    originM L a = .base v ∧ ∃ e ∈ L.gtm, e.1 = c0 ∧ e.2.1 = v ∧ e.2.2 = true := by
+  obtain ⟨e, he, hk, hv⟩ := gtmGet_mem L hg
+  have hval := (gtm_entry L (adequate_gtm L hA) he).2.1
+  simp only [gtmValueOk, hv, Bool.and_eq_true, Bool.not_eq_true'] at hval
+  refine ⟨?_, e, he, hk, hv, hval.1.1.2⟩
+  rw [originM_direct L a hd c0 ht, genericsStep_base L (adequate_gtm L hA)]
+  simp [Lattice.gtmOr, hg, callableStep, iscallableM, hval.2]
+
+
+/-! ## 10. Special-form predicates: syntactic specification -/
+
+def magicNames : List Str := ["Union".toList, "UnionType".toList, "Optional".toList, "Literal".toList]
+
+/-- `origin` does not turn the base object `i` into a special form, and the class it finds is not called like one.
+    (A decidable fact per catalogue object, re-decided for the whole table in `lattice_ordinary`.) -/
+def ordinaryId (i : Nat) : Bool :=
+  i != L.classVarId &&
+  match originM L (.base i) with
+  | .base j => j != L.literalId && j != L.finalId && !nameIn magicNames (nameOf L (.base j))
+  | _ => false
+
+/-- The special forms themselves and the class-like forms, without wrappers.  (ClassVar: `origin` looks through it,
+    see `isuniontype_classvar`; NewType / alias: `unwrap` first, section 6.) -/
+def plainOk : Ann → Bool
+  | .base i => ordinaryId L i
+  | .sub g _ => ordinaryId L g
+  | .union _ _ => true
+  | .literal _ => true
+  | .final _ => true
+  | .tvarBound _ => true
+  | .tvarConstr _ => true
+  | .tvarFree => true
+  | .fref _ _ => true
+  | _ => false
+
+theorem originM_sub (g : Nat) (args : List Ann) : originM L (.sub g args) = originM L (.base g) := rfl
+
+theorem originM_union (hA : adequate L = true) (sp : USp) (ms : List Ann) :
+    originM L (.union sp ms) = .base (if sp = .pipe then L.unionTypeId else L.unionId) := by
+  obtain ⟨su, sut, _, _, _⟩ := stable_of L hA
+  cases sp
+  · exact stable_tail L su
+  · exact stable_tail L sut
+  · exact stable_tail L su
+
+theorem originM_literal (hA : adequate L = true) (h : Bool) : originM L (.literal h) = .base L.literalId :=
+  stable_tail L (stable_of L hA).2.2.1
+
+theorem originM_nonbase_fix {a : Ann} (h1 : resolveSupertype a = a) (h2 : classVarArg L a = a)
+    (h3 : aliasValue a = a) (h4 : getOriginOr L a = a) (h5 : a.isBase = false) : originM L a = a := by
+  unfold originM
+  rw [h1, h2, h3, h4, genericsStep_nonbase L h5, callableStep_nonbase L h5]
+
+theorem originM_tvarBound (b : Ann) : originM L (.tvarBound b) = .tvarBound b :=
+  originM_nonbase_fix L rfl rfl rfl rfl rfl
+theorem originM_tvarConstr (cs : List Ann) : originM L (.tvarConstr cs) = .tvarConstr cs :=
+  originM_nonbase_fix L rfl rfl rfl rfl rfl
+theorem originM_tvarFree : originM L .tvarFree = .tvarFree := originM_nonbase_fix L rfl rfl rfl rfl rfl
+theorem originM_fref (l b : Bool) : originM L (.fref l b) = .fref l b := originM_nonbase_fix L rfl rfl rfl rfl rfl
+
+theorem nameOf_of_nameIs {i : Nat} {s : String} (h : nameIs L i s = true) : nameOf L (.base i) = some s.toList := by
+  unfold nameIs at h
+  unfold nameOf
+  cases hr : L.row i with
+  | none => simp [hr] at h
+  | some r => simpa [hr] using h
+
+theorem names_of (hA : adequate L = true) :
+    nameOf L (.base L.unionId) = some "Union".toList ∧ nameOf L (.base L.unionTypeId) = some "UnionType".toList ∧
+    nameOf L (.base L.optionalId) = some "Optional".toList ∧ nameOf L (.base L.literalId) = some "Literal".toList ∧
+    nameOf L (.base L.finalId) = some "Final".toList := by
+  have h := adequate_special L hA
+  simp only [specialOk, namesOk, Bool.and_eq_true] at h
+  obtain ⟨⟨⟨⟨⟨⟨_, _⟩, ⟨⟨⟨⟨n1, n2⟩, n3⟩, n4⟩, n5⟩⟩, _⟩, _⟩, _⟩, _⟩ := h
+  exact ⟨nameOf_of_nameIs L n1, nameOf_of_nameIs L n2, nameOf_of_nameIs L n3, nameOf_of_nameIs L n4,
+    nameOf_of_nameIs L n5⟩
+
+/-- What an ordinary base object gives. -/
+theorem ordinary_origin {i : Nat} (h : ordinaryId L i = true) :
+    i ≠ L.classVarId ∧ ∃ j, originM L (.base i) = .base j ∧ j ≠ L.literalId ∧ j ≠ L.finalId ∧
+      nameIn magicNames (nameOf L (.base j)) = false := by
+  unfold ordinaryId at h
+  simp only [Bool.and_eq_true, bne_iff_ne, ne_eq] at h
+  refine ⟨h.1, ?_⟩
+  have h2 := h.2
+  cases ho : originM L (.base i) with
+  | base j =>
+    simp only [ho, Bool.and_eq_true, bne_iff_ne, ne_eq, Bool.not_eq_true'] at h2
+    exact ⟨j, rfl, h2.1.1, h2.1.2, h2.2⟩
+  | _ => simp [ho] at h2
+
+theorem not_magic {n : Option Str} (h : nameIn magicNames n = false) :
+    nameIn unionNames n = false ∧ nameIn optionalNames n = false ∧ nameIn nullableNames n = false := by
+  cases n with
+  | none => simp [nameIn]
+  | some s =>
+    simp only [nameIn, magicNames, unionNames, optionalNames, nullableNames, List.contains_cons, List.contains_nil,
+      Bool.or_false, Bool.or_eq_false_iff] at h ⊢
+    exact ⟨⟨h.1, h.2.1⟩, h.2.2.1, h.1, h.2.1, h.2.2.2⟩
+
+/-- `isuniontype` is "the annotation is a union" — `typing.Union[...]`, `Optional[...]` and `X | Y` alike. -/
+theorem isuniontype_spec (hA : adequate L = true) {a : Ann} (hp : plainOk L a = true) :
+    isuniontypeM L a = a.isUnion := by
+  obtain ⟨nu, nut, _, nl, nf⟩ := names_of L hA
+  unfold isuniontypeM
+  cases a with
+  | base i =>
+    obtain ⟨_, j, hj, _, _, hn⟩ := ordinary_origin L hp
+    rw [hj, (not_magic hn).1]; rfl
+  | sub g args =>
+    obtain ⟨_, j, hj, _, _, hn⟩ := ordinary_origin L (i := g) hp
+    rw [originM_sub, hj, (not_magic hn).1]; rfl
+  | union sp ms =>
+    rw [originM_union L hA]
+    cases sp <;> simp [nu, nut, nameIn, unionNames, Ann.isUnion]
+  | literal h => rw [originM_literal L hA, nl]; simp [nameIn, unionNames, Ann.isUnion]
+  | final x => rw [originM_final L hA, nf]; simp [nameIn, unionNames, Ann.isUnion]
+  | tvarBound b => rw [originM_tvarBound]; rfl
+  | tvarConstr cs => rw [originM_tvarConstr]; rfl
+  | tvarFree => rw [originM_tvarFree]; rfl
+  | fref l b => rw [originM_fref]; rfl
+  | classvar x => simp [plainOk] at hp
+  | newtype x => simp [plainOk] at hp
+  | alias x => simp [plainOk] at hp
+
+/-- The documented meaning of `isoptionaltype`: a union with a `None` member in any spelling, or a Literal with `None`. -/
+def specOptional : Ann → Bool
+  | .union sp ms => sp == .optional || ms.any (isNoneAnn L)
+  | .literal h => h
+  | _ => false
+
+theorem isoptionaltype_spec (hA : adequate L = true) {a : Ann} (hp : plainOk L a = true) :
+    isoptionaltypeM L a = specOptional L a := by
+  obtain ⟨nu, nut, _, nl, nf⟩ := names_of L hA
+  unfold isoptionaltypeM
+  cases a with
+  | base i =>
+    obtain ⟨_, j, hj, _, _, hn⟩ := ordinary_origin L hp
+    rw [hj, (not_magic hn).2.1, (not_magic hn).2.2]; simp [specOptional]
+  | sub g args =>
+    obtain ⟨_, j, hj, _, _, hn⟩ := ordinary_origin L (i := g) hp
+    rw [originM_sub, hj, (not_magic hn).2.1, (not_magic hn).2.2]; simp [specOptional]
+  | union sp ms =>
+    rw [originM_union L hA]
+    cases sp <;> simp [nu, nut, nameIn, optionalNames, nullableNames, hasNullArg, specOptional]
+  | literal h =>
+    rw [originM_literal L hA, nl]
+    simp [nameIn, optionalNames, nullableNames, hasNullArg, specOptional]
+  | final x =>
+    rw [originM_final L hA, nf]
+    simp [nameIn, optionalNames, nullableNames, specOptional]
+  | tvarBound b => rw [originM_tvarBound]; simp [nameOf, nameIn, specOptional]
+  | tvarConstr cs => rw [originM_tvarConstr]; simp [nameOf, nameIn, specOptional]
+  | tvarFree => rw [originM_tvarFree]; simp [nameOf, nameIn, specOptional]
+  | fref l b => rw [originM_fref]; simp [nameOf, nameIn, specOptional]
+  | classvar x => simp [plainOk] at hp
+  | newtype x => simp [plainOk] at hp
+  | alias x => simp [plainOk] at hp
+
+def specLiteral : Ann → Bool
+  | .literal _ => true
+  | .fref l _ => l
+  | _ => false
+
+theorem isliteral_spec (hA : adequate L = true) {a : Ann} (hp : plainOk L a = true) :
+    isliteralM L a = specLiteral a := by
+  obtain ⟨_, _, _, _, _, _, hlu, hlut, hfl, _, _, _⟩ := special_ne L hA
+  unfold isliteralM
+  cases a with
+  | base i =>
+    obtain ⟨_, j, hj, hjl, _, _⟩ := ordinary_origin L hp
+    simp [hj, Ann.isBaseId, hjl, specLiteral]
+  | sub g args =>
+    obtain ⟨_, j, hj, hjl, _, _⟩ := ordinary_origin L (i := g) hp
+    simp [originM_sub, hj, Ann.isBaseId, hjl, specLiteral]
+  | union sp ms =>
+    rw [originM_union L hA]
+    cases sp <;> simp [Ann.isBaseId, specLiteral, Ne.symm hlu, Ne.symm hlut]
+  | literal h => simp [originM_literal L hA, Ann.isBaseId, specLiteral]
+  | final x => simp [originM_final L hA, Ann.isBaseId, specLiteral, hfl]
+  | tvarBound b => simp [originM_tvarBound, Ann.isBaseId, specLiteral]
+  | tvarConstr cs => simp [originM_tvarConstr, Ann.isBaseId, specLiteral]
+  | tvarFree => simp [originM_tvarFree, Ann.isBaseId, specLiteral]
+  | fref l b => simp [originM_fref, Ann.isBaseId, specLiteral]
+  | classvar x => simp [plainOk] at hp
+  | newtype x => simp [plainOk] at hp
+  | alias x => simp [plainOk] at hp
+
+def specFinal : Ann → Bool
+  | .final _ => true
+  | _ => false
+
+theorem isfinal_spec (hA : adequate L = true) {a : Ann} (hp : plainOk L a = true) :
+    isfinalM L a = specFinal a := by
+  obtain ⟨huf, hutf, hlf, _, _, _, _, _, _, _, _, _⟩ := special_ne L hA
+  unfold isfinalM
+  cases a with
+  | base i =>
+    obtain ⟨_, j, hj, _, hjf, _⟩ := ordinary_origin L hp
+    simp [hj, Ann.isBaseId, hjf, specFinal]
+  | sub g args =>
+    obtain ⟨_, j, hj, _, hjf, _⟩ := ordinary_origin L (i := g) hp
+    simp [originM_sub, hj, Ann.isBaseId, hjf, specFinal]
+  | union sp ms =>
+    rw [originM_union L hA]
+    cases sp <;> simp [Ann.isBaseId, specFinal, huf, hutf]
+  | literal h => simp [originM_literal L hA, Ann.isBaseId, specFinal, hlf]
+  | final x => simp [originM_final L hA, Ann.isBaseId, specFinal]
+  | tvarBound b => simp [originM_tvarBound, Ann.isBaseId, specFinal]
+  | tvarConstr cs => simp [originM_tvarConstr, Ann.isBaseId, specFinal]
+  | tvarFree => simp [originM_tvarFree, Ann.isBaseId, specFinal]
+  | fref l b => simp [originM_fref, Ann.isBaseId, specFinal]
+  | classvar x => simp [plainOk] at hp
+  | newtype x => simp [plainOk] at hp
+  | alias x => simp [plainOk] at hp
+
+/-- `isclassvartype`: a `ClassVar[...]`, possibly behind NewTypes (documented); never a plain form. -/
+theorem isclassvartype_spec :
+    (∀ x, isclassvartypeM L (.classvar x) = true) ∧
+    (∀ a, isclassvartypeM L (.newtype a) = isclassvartypeM L a) ∧
+    (∀ a, plainOk L a = true → isclassvartypeM L a = false) := by
+  refine ⟨fun _ => rfl, fun _ => rfl, ?_⟩
+  intro a hp
+  cases a with
+  | base i =>
+    obtain ⟨hcv, _⟩ := ordinary_origin L hp
+    simp [isclassvartypeM, resolveSupertype, isClassVarResolved, hcv]
+  | classvar x => simp [plainOk] at hp
+  | newtype x => simp [plainOk] at hp
+  | _ => rfl
+
+/-- `isnonetype` / `isforwardref`: the object itself. -/
+theorem isnonetype_spec (a : Ann) : isnonetypeM L a = true ↔ ∃ i, a = .base i ∧ L.flag (·.isNone) i = true := by
+  cases a <;> simp [isnonetypeM, isNoneAnn]
+theorem isforwardref_spec (a : Ann) : isforwardrefM a = true ↔ ∃ l b, a = .fref l b := by
+  cases a <;> simp [isforwardrefM, Ann.isFref]
+
+/-- `isunresolvable` of a class-valued annotation: the object itself or the class it resolves to is in `_UNRESOLVABLE`. -/
+theorem isunresolvable_resolved (hA : adequate L = true) {a : Ann} (hd : directOk a = true) {c : Nat}
+    (hr : ResolvesTo L a c) : isunresolvableM L a = (inUnresolvable L a || L.flag (·.unresolvable) c) := by
+  unfold isunresolvableM; rw [originM_resolved L hA hd hr]; rfl
+
+
+/-- "Has `typing.get_origin` and arguments": a subscripted generic, a union, a Literal, `Final[...]`. -/
+def specSubscripted : Ann → Bool
+  | .sub _ _ => true
+  | .union _ _ => true
+  | .literal _ => true
+  | .final _ => true
+  | _ => false
+
+/-- The forms whose `str()` shows their subscript: everything but a `|` union, a ForwardRef whose text has a `[`,
+    and base objects whose own `str()` has one. -/
+def reprFaithful : Ann → Bool
+  | .union .pipe _ => false
+  | .fref _ br => !br
+  | .base i => !reprBracket L (.base i)
+  | _ => true
+
+/- Full statement (FALSE on the code as it stands, see `issubscriptedgeneric_pipe_witness`):
+     plainOk a → issubscriptedgenericM L a = specSubscripted a. -/
+theorem issubscriptedgeneric_spec_partial {a : Ann} (hp : plainOk L a = true) (hf : reprFaithful L a = true) :
+    issubscriptedgenericM L a = specSubscripted a := by
+  unfold issubscriptedgenericM
+  cases a with
+  | base i =>
+    simp only [reprFaithful, Bool.not_eq_true'] at hf
+    simp [hf, specSubscripted]
+  | sub g args => simp [isgenericM, reprBracket, memberBracket, specSubscripted]
+  | union sp ms =>
+    cases sp with
+    | pipe => simp [reprFaithful] at hf
+    | typing => simp [isgenericM, reprBracket, memberBracket, specSubscripted]
+    | optional => simp [isgenericM, reprBracket, memberBracket, specSubscripted]
+  | literal h => simp [isgenericM, reprBracket, memberBracket, specSubscripted]
+  | final x => simp [isgenericM, reprBracket, memberBracket, specSubscripted]
+  | tvarBound b => simp [reprBracket, memberBracket, specSubscripted]
+  | tvarConstr cs => simp [reprBracket, memberBracket, specSubscripted]
+  | tvarFree => simp [reprBracket, memberBracket, specSubscripted]
+  | fref l b =>
+    simp only [reprFaithful, Bool.not_eq_true'] at hf
+    simp [reprBracket, hf, specSubscripted]
+  | classvar x => simp [plainOk] at hp
+  | newtype x => simp [plainOk] at hp
+  | alias x => simp [plainOk] at hp
+
+/-- `isfixedtupletype`: a subscripted generic whose runtime origin is a tuple class, with at least one argument, the
+    last of which is not `...`. -/
+def specFixedTuple : Ann → Bool
+  | .sub g args => !(args.map (normTv L)).isEmpty && !lastIsEllipsis L (args.map (normTv L)) &&
+      L.tri .tuple (L.originOr g) == 1
+  | _ => false
+
+theorem isfixedtupletype_spec (hA : adequate L = true) {a : Ann} (hp : plainOk L a = true) :
+    isfixedtupletypeM L a = specFixedTuple L a := by
+  have hm := adequate_special L hA
+  simp only [specialOk, miscOk, Bool.and_eq_true, bne_iff_ne, ne_eq] at hm
+  obtain ⟨⟨⟨⟨tu, tut⟩, tl⟩, tf⟩, _⟩ := hm.1.2
+  unfold isfixedtupletypeM
+  cases a with
+  | base i => simp [argsOf, specFixedTuple]
+  | sub g args =>
+    simp only [argsOf, typingOrigin, specFixedTuple]
+    by_cases h : ((args.map (normTv L)).isEmpty || lastIsEllipsis L (args.map (normTv L))) = true
+    · simp only [h, if_true]
+      simp only [Bool.or_eq_true] at h
+      rcases h with h | h <;> simp [h]
+    · simp only [h]
+      simp only [Bool.or_eq_true, not_or, Bool.not_eq_true] at h
+      simp [h.1, h.2]
+  | union sp ms =>
+    cases sp <;> simp [typingOrigin, specFixedTuple, tu, tut]
+  | literal h => simp [typingOrigin, specFixedTuple, tl]
+  | final x => simp [typingOrigin, specFixedTuple, tf]
+  | tvarBound b => simp [argsOf, specFixedTuple]
+  | tvarConstr cs => simp [argsOf, specFixedTuple]
+  | tvarFree => simp [argsOf, specFixedTuple]
+  | fref l b => simp [argsOf, specFixedTuple]
+  | classvar x => simp [plainOk] at hp
+  | newtype x => simp [plainOk] at hp
+  | alias x => simp [plainOk] at hp
+
+
+/-! ## 11. Spelling invariance of the special-form predicates -/
+
+theorem eraseList_eq_map (as : List Ann) : eraseList L as = as.map (erase L) := by
+  induction as with
+  | nil => simp [eraseList]
+  | cons a as ih => simp [eraseList, ih]
+
+theorem originM_base_originOr (hA : adequate L = true) (g : Nat) :
+    originM L (.base (L.originOr g)) = originM L (.base g) := by
+  have h1 : originM L (.base (L.originOr g)) =
+      callableStep L (genericsStep L (.base (L.originOr (L.originOr g)))) := rfl
+  have h2 : originM L (.base g) = callableStep L (genericsStep L (.base (L.originOr g))) := rfl
+  rw [h1, h2, originOr_idem L hA]
+
+theorem originOr_ne_special (hA : adequate L = true) {g s : Nat} (hs : s ∈ specialIds L) (hg : g ≠ s) :
+    L.originOr g ≠ s := by
+  have hsp := adequate_special L hA
+  simp only [specialOk, Bool.and_eq_true] at hsp
+  have hor : originsAvoidSpecial L = true := hsp.1.1.2
+  unfold Lattice.originOr Lattice.getOrigin
+  cases hrow : L.row g with
+  | none => simpa using hg
+  | some r =>
+    cases ho : r.origin with
+    | none => simpa [ho] using hg
+    | some o =>
+      have := (List.all_eq_true.mp hor) r (row_mem L hrow)
+      simp only [rowAvoidsSpecial, ho, Bool.not_eq_true', List.contains_eq_mem, decide_eq_false_iff_not] at this
+      simp only [ho]
+      intro heq; rw [heq] at this; exact this hs
+
+theorem ordinaryId_originOr (hA : adequate L = true) {g : Nat} (h : ordinaryId L g = true) :
+    ordinaryId L (L.originOr g) = true := by
+  unfold ordinaryId at h ⊢
+  simp only [Bool.and_eq_true, bne_iff_ne, ne_eq] at h
+  rw [originM_base_originOr L hA]
+  simp only [Bool.and_eq_true, bne_iff_ne, ne_eq]
+  exact ⟨originOr_ne_special L hA (by simp [specialIds]) h.1, h.2⟩
+
+theorem plainOk_erase (hA : adequate L = true) {a : Ann} (hp : plainOk L a = true) : plainOk L (erase L a) = true := by
+  cases a with
+  | base i => simpa [erase, plainOk] using hp
+  | sub g args => simpa [erase, plainOk] using ordinaryId_originOr L hA (g := g) hp
+  | union sp ms => cases sp <;> simp [erase, plainOk]
+  | literal h => simp [erase, plainOk]
+  | final x => simp [erase, plainOk]
+  | tvarBound b => simp [erase, plainOk]
+  | tvarConstr cs => simp [erase, plainOk]
+  | tvarFree => simp [erase, plainOk]
+  | fref l b => simp [erase, plainOk]
+  | classvar x => simp [plainOk] at hp
+  | newtype x => simp [plainOk] at hp
+  | alias x => simp [plainOk] at hp
+
+theorem isNoneAnn_erase (a : Ann) : isNoneAnn L (erase L a) = isNoneAnn L a := by
+  cases a with
+  | union sp ms => cases sp <;> simp [erase, isNoneAnn]
+  | _ => simp [erase, isNoneAnn]
+
+theorem any_none_erase (ms : List Ann) : (eraseList L ms).any (isNoneAnn L) = ms.any (isNoneAnn L) := by
+  rw [eraseList_eq_map, List.any_map]
+  congr 1
+  funext m
+  exact isNoneAnn_erase L m
+
+theorem isUnion_erase (a : Ann) : (erase L a).isUnion = a.isUnion := by
+  cases a with
+  | union sp ms => cases sp <;> simp [erase, Ann.isUnion]
+  | _ => simp [erase, Ann.isUnion]
+
+theorem specOptional_erase (hA : adequate L = true) (a : Ann) : specOptional L (erase L a) = specOptional L a := by
+  have hm := adequate_special L hA
+  simp only [specialOk, miscOk, Bool.and_eq_true] at hm
+  have hn : isNoneAnn L (.base L.noneTypeId) = true := hm.1.2.2
+  cases a with
+  | union sp ms =>
+    cases sp with
+    | optional => simp [erase, specOptional, List.any_append, hn]
+    | typing => simp [erase, specOptional, any_none_erase]
+    | pipe =>
+      simp only [erase, specOptional, any_none_erase]
+      rfl
+  | _ => simp [erase, specOptional]
+
+theorem specLiteral_erase (a : Ann) : specLiteral (erase L a) = specLiteral a := by
+  cases a with
+  | union sp ms => cases sp <;> simp [erase, specLiteral]
+  | _ => simp [erase, specLiteral]
+
+theorem specFinal_erase (a : Ann) : specFinal (erase L a) = specFinal a := by
+  cases a with
+  | union sp ms => cases sp <;> simp [erase, specFinal]
+  | _ => simp [erase, specFinal]
+
+/-- **`X | None`, `Optional[X]` and `Union[X, None]` (and the two spellings of every generic) get the same answer.** -/
+theorem isuniontype_spelling_invariant (hA : adequate L = true) {a : Ann} (hp : plainOk L a = true) :
+    isuniontypeM L (erase L a) = isuniontypeM L a := by
+  rw [isuniontype_spec L hA hp, isuniontype_spec L hA (plainOk_erase L hA hp), isUnion_erase]
+theorem isoptionaltype_spelling_invariant (hA : adequate L = true) {a : Ann} (hp : plainOk L a = true) :
+    isoptionaltypeM L (erase L a) = isoptionaltypeM L a := by
+  rw [isoptionaltype_spec L hA hp, isoptionaltype_spec L hA (plainOk_erase L hA hp), specOptional_erase L hA]
+theorem isliteral_spelling_invariant (hA : adequate L = true) {a : Ann} (hp : plainOk L a = true) :
+    isliteralM L (erase L a) = isliteralM L a := by
+  rw [isliteral_spec L hA hp, isliteral_spec L hA (plainOk_erase L hA hp), specLiteral_erase]
+theorem isfinal_spelling_invariant (hA : adequate L = true) {a : Ann} (hp : plainOk L a = true) :
+    isfinalM L (erase L a) = isfinalM L a := by
+  rw [isfinal_spec L hA hp, isfinal_spec L hA (plainOk_erase L hA hp), specFinal_erase]
+
+theorem isnonetype_spelling_invariant (a : Ann) : isnonetypeM L (erase L a) = isnonetypeM L a :=
+  isNoneAnn_erase L a
+
+theorem isforwardref_spelling_invariant (a : Ann) : isforwardrefM (erase L a) = isforwardrefM a := by
+  cases a with
+  | union sp ms => cases sp <;> simp [erase, isforwardrefM, Ann.isFref]
+  | _ => simp [erase, isforwardrefM, Ann.isFref]
+
+theorem resolveSupertype_erase : ∀ a : Ann, resolveSupertype (erase L a) = erase L (resolveSupertype a)
+  | .newtype a => by simpa [erase, resolveSupertype] using resolveSupertype_erase a
+  | .base _ => by simp [erase, resolveSupertype]
+  | .sub _ _ => by simp [erase, resolveSupertype]
+  | .union sp _ => by cases sp <;> simp [erase, resolveSupertype]
+  | .literal _ => by simp [erase, resolveSupertype]
+  | .final _ => by simp [erase, resolveSupertype]
+  | .classvar _ => by simp [erase, resolveSupertype]
+  | .alias _ => by simp [erase, resolveSupertype]
+  | .tvarBound _ => by simp [erase, resolveSupertype]
+  | .tvarConstr _ => by simp [erase, resolveSupertype]
+  | .tvarFree => by simp [erase, resolveSupertype]
+  | .fref _ _ => by simp [erase, resolveSupertype]
+
+/-- `isclassvartype` (every annotation, wrappers included). -/
+theorem isclassvartype_spelling_invariant (a : Ann) : isclassvartypeM L (erase L a) = isclassvartypeM L a := by
+  unfold isclassvartypeM
+  rw [resolveSupertype_erase]
+  generalize resolveSupertype a = r
+  cases r with
+  | union sp ms => cases sp <;> simp [erase, isClassVarResolved]
+  | _ => simp [erase, isClassVarResolved]
+
+theorem specSubscripted_erase (a : Ann) : specSubscripted (erase L a) = specSubscripted a := by
+  cases a with
+  | union sp ms => cases sp <;> simp [erase, specSubscripted]
+  | _ => simp [erase, specSubscripted]
+
+theorem reprFaithful_erase {a : Ann} (h : reprFaithful L a = true) : reprFaithful L (erase L a) = true := by
+  cases a with
+  | union sp ms => cases sp <;> simp_all [erase, reprFaithful]
+  | base i => simpa [erase, reprFaithful] using h
+  | fref l b => simpa [erase, reprFaithful] using h
+  | _ => simp [erase, reprFaithful]
+
+theorem issubscriptedgeneric_spelling_invariant (hA : adequate L = true) {a : Ann} (hp : plainOk L a = true)
+    (hf : reprFaithful L a = true) : issubscriptedgenericM L (erase L a) = issubscriptedgenericM L a := by
+  rw [issubscriptedgeneric_spec_partial L hp hf,
+    issubscriptedgeneric_spec_partial L (plainOk_erase L hA hp) (reprFaithful_erase L hf), specSubscripted_erase]
+
+theorem isBaseId_erase (a : Ann) (i : Nat) : (erase L a).isBaseId i = a.isBaseId i := by
+  cases a with
+  | union sp ms => cases sp <;> simp [erase, Ann.isBaseId]
+  | _ => simp [erase, Ann.isBaseId]
+
+theorem isBaseId_normTv_erase (x : Ann) :
+    (normTv L (erase L x)).isBaseId L.ellipsisId = (normTv L x).isBaseId L.ellipsisId := by
+  cases x with
+  | union sp ms => cases sp <;> simp [erase, normTv, Ann.isBaseId]
+  | tvarBound b => simp [erase, normTv, isBaseId_erase]
+  | _ => simp [erase, normTv, Ann.isBaseId]
+
+theorem lastIsEllipsis_erase (hA : adequate L = true) (args : List Ann) :
+    lastIsEllipsis L ((eraseList L args).map (normTv L)) = lastIsEllipsis L (args.map (normTv L)) := by
+  rw [eraseList_eq_map]
+  unfold lastIsEllipsis
+  simp only [List.map_map, List.getLast?_map]
+  cases args.getLast? with
+  | none => rfl
+  | some x => simp [isBaseId_normTv_erase L]
+
+theorem specFixedTuple_erase (hA : adequate L = true) (a : Ann) :
+    specFixedTuple L (erase L a) = specFixedTuple L a := by
+  cases a with
+  | sub g args =>
+    simp only [erase, specFixedTuple, lastIsEllipsis_erase L hA, originOr_idem L hA]
+    simp [eraseList_eq_map]
+  | union sp ms => cases sp <;> simp [erase, specFixedTuple]
+  | _ => simp [erase, specFixedTuple]
+
+theorem isfixedtupletype_spelling_invariant (hA : adequate L = true) {a : Ann} (hp : plainOk L a = true) :
+    isfixedtupletypeM L (erase L a) = isfixedtupletypeM L a := by
+  rw [isfixedtupletype_spec L hA hp, isfixedtupletype_spec L hA (plainOk_erase L hA hp), specFixedTuple_erase L hA]
+
+
+/-! ## 12. The regenerated table: what is ordinary, and where the code does not meet the full statement -/
+
+open Typelib.Gen in
+/-- The table of this run. -/
+abbrev G : Lattice := Typelib.Gen.lattice
+
+open Typelib.Gen
+
+/-- Every catalogue object is ordinary (no class is mistaken for a Union / Optional / Literal / Final by its name or by
+    what `origin` makes of it) — except the special forms themselves and the callable classes (`type`, classes with
+    `__call__`), which `origin` turns into `typing.Callable`. -/
+theorem lattice_ordinary :
+    (List.range G.rows.length).all (fun i =>
+      ordinaryId G i || (specialIds G).contains i || G.callable (G.gtmOr (G.originOr i))) = true := by
+  decide +kernel
+
+/-- `Alias(Alias(date))`, `Alias(NewType(date))`: `origin` resolves one alias level only and never looks for NewTypes
+    below an alias — the origin-based predicates raise TypeError where the runtime says True. -/
+theorem alias_chain_raises_witness :
+    isdatetypeM G (.alias (.alias (.base Id.i_datetime_date))) = none ∧
+    isdatetypeM G (.alias (.newtype (.base Id.i_datetime_date))) = none ∧
+    specSub G .date (.alias (.alias (.base Id.i_datetime_date))) = some true ∧
+    specSub G .date (.alias (.newtype (.base Id.i_datetime_date))) = some true ∧
+    (unwrapM G (.alias (.alias (.base Id.i_datetime_date)))).bind (isdatetypeM G) = some true := by
+  decide +kernel
+
+/-- The full statement of `predA_agrees` (every NewType / alias interleaving) is false on the code as it stands. -/
+theorem predA_agrees_full_false :
+    ¬ (∀ (a : Ann) (c : Nat), ResolvesTo G a c → isdatetypeM G a = specSub G .date a) := by
+  intro h
+  have := h (.alias (.alias (.base Id.i_datetime_date))) Id.i_datetime_date
+    ⟨by decide +kernel, by decide +kernel, by decide +kernel⟩
+  revert this
+  decide +kernel
+
+/-- Asked directly, the `_safe_issubclass` predicates do not resolve anything: `isstringtype(NewType("S", str))`,
+    `ispatterntype(re.Pattern[str])`, `ispatterntype(typing.Pattern)`, `isstringtype(Hashable)` are all False. -/
+theorem direct_predicates_witness :
+    isstringtypeM G (.newtype (.base Id.i_str)) = false ∧
+    specSub G .str (.newtype (.base Id.i_str)) = some true ∧
+    ispatterntypeM G (.sub Id.i_re_Pattern [.base Id.i_str]) = false ∧
+    specSub G .pattern (.sub Id.i_re_Pattern [.base Id.i_str]) = some true ∧
+    ispatterntypeM G (.base Id.i_typing_Pattern) = false ∧
+    specSub G .pattern (.base Id.i_typing_Pattern) = some true ∧
+    (unwrapM G (.newtype (.base Id.i_str))).map (isstringtypeM G) = some true := by
+  decide +kernel
+
+/-- `issequencetype(dict)` is True, `issequencetype(OrderedDict)` is False: neither Sequence nor Collection. -/
+theorem issequencetype_disagrees_witness :
+    issequencetypeM G (.base Id.i_dict) = some true ∧
+    issequencetypeM G (.base Id.i_collections_OrderedDict) = some false ∧
+    specSequence G (.base Id.i_collections_OrderedDict) = some true ∧
+    seqConsistent G Id.i_collections_OrderedDict = false ∧
+    G.tri .sequence Id.i_dict = 0 := by
+  decide +kernel
+
+/-- A class that defines `__call__`: `origin` answers `typing.Callable`, the predicates raise. -/
+theorem callable_class_witness :
+    G.isClass Id.i_user_CallableCls = true ∧
+    (originM G (.base Id.i_user_CallableCls)).isBaseId G.callableId = true ∧
+    isdatetypeM G (.base Id.i_user_CallableCls) = none ∧
+    isunresolvableM G (.base Id.i_user_CallableCls) = true := by
+  decide +kernel
+
+/-- `origin(Iterator[int])` is the abstract `collections.abc.Iterator`; likewise `typing.ByteString` (a Collection). -/
+theorem origin_not_instantiable_witness :
+    directOk (.sub Id.i_typing_Iterator [.base Id.i_int]) = true ∧
+    G.flag (·.stdColl) Id.i_collections_abc_Iterator = true ∧
+    (originM G (.sub Id.i_typing_Iterator [.base Id.i_int])).isBaseId Id.i_collections_abc_Iterator = true ∧
+    instantiableM G (originM G (.sub Id.i_typing_Iterator [.base Id.i_int])) = false ∧
+    G.tri .collection Id.i_collections_abc_ByteString = 1 ∧
+    instantiableM G (originM G (.base Id.i_typing_ByteString)) = false := by
+  decide +kernel
+
+/-- `Hashable ↦ str`: instantiable, and `issubclass(str, Hashable)` — the letter of the clause holds. -/
+theorem origin_hashable_is_str :
+    (originM G (.base Id.i_typing_Hashable)).isBaseId Id.i_str = true ∧
+    instantiableM G (originM G (.base Id.i_typing_Hashable)) = true := by
+  decide +kernel
+
+/-- `issubscriptedgeneric(int | None)` is False, `issubscriptedgeneric(Optional[int])` is True. -/
+theorem issubscriptedgeneric_pipe_witness :
+    issubscriptedgenericM G (.union .pipe [.base Id.i_int, .base Id.i_NoneType]) = false ∧
+    issubscriptedgenericM G (.union .optional [.base Id.i_int]) = true ∧
+    specSubscripted (.union .pipe [.base Id.i_int, .base Id.i_NoneType]) = true ∧
+    issubscriptedgenericM G (.fref false true) = true := by
+  decide +kernel
+
+/-- `unwrap(ClassVar[Literal[1]])` keeps the ClassVar (`Final[Literal[1]]` loses the Final). -/
+theorem unwrap_classvar_literal_witness :
+    (unwrapM G (.classvar (.literal false))).map isWrapper = some true ∧
+    (unwrapM G (.final (.literal false))).map isWrapper = some false ∧
+    isuniontypeM G (.classvar (.union .optional [.base Id.i_int])) = true ∧
+    isoptionaltypeM G (.classvar (.union .optional [.base Id.i_int])) = false := by
+  decide +kernel
+
+/-! ## 13. Non-vacuity -/
+
+/-- `NewType(NewType(Alias(typing.Sequence[int])))`. -/
+def exChain : Ann := .newtype (.newtype (.alias (.sub Id.i_typing_Sequence [.base Id.i_int])))
+
+example : directOk exChain = true := by decide
+example : ResolvesTo G exChain Id.i_list := ⟨by decide +kernel, by decide +kernel, by decide +kernel⟩
+example : isiterabletypeM G exChain = some true := by decide +kernel
+example : isiterabletypeM G exChain = specSub G .iterable exChain :=
+  isiterabletype_agrees G lattice_adequate (by decide) (c := Id.i_list) ⟨by decide +kernel, by decide +kernel, by decide +kernel⟩
+example : ismappingtypeM G exChain = some false := by decide +kernel
+example : (erase G exChain).isNewtype = true ∧ issequencetypeM G (erase G exChain) = issequencetypeM G exChain := by
+  decide +kernel
+example : seqConsistent G Id.i_list = true := by decide +kernel
+
+/-- `Final[NewType(Alias(NewType(TypeVar(bound=NewType(datetime)))))]`. -/
+def exWrapped : Ann :=
+  .final (.newtype (.alias (.newtype (.tvarBound (.newtype (.base Id.i_datetime_datetime))))))
+
+example : legal G exWrapped = true := by decide +kernel
+example : (unwrapM G exWrapped).map (·.isBaseId Id.i_datetime_datetime) = some true := by decide +kernel
+example : (unwrapM G exWrapped).bind (isdatetypeM G) = some true := by decide +kernel
+example : (unwrapM G exWrapped).bind (isdatetypeM G) = specSub G .date (core G exWrapped) :=
+  predA_unwrapped_agrees G lattice_adequate .date (by decide +kernel) (by decide +kernel) (c := Id.i_datetime_datetime)
+    ⟨by decide +kernel, by decide +kernel, by decide +kernel⟩
+example : (unwrapM G (.alias (.alias (.newtype (.base Id.i_str))))).map (isstringtypeM G) = some true := by
+  decide +kernel
+
+example : plainOk G (.union .pipe [.base Id.i_int, .base Id.i_NoneType]) = true := by decide +kernel
+example : plainOk G (.sub Id.i_typing_List [.base Id.i_int]) = true := by decide +kernel
+example : isoptionaltypeM G (.union .pipe [.base Id.i_int, .base Id.i_NoneType]) = true ∧
+    isoptionaltypeM G (.union .optional [.base Id.i_int]) = true ∧
+    isoptionaltypeM G (.union .typing [.base Id.i_int, .base Id.i_str]) = false ∧
+    isoptionaltypeM G (.literal true) = true := by decide +kernel
+example : isfixedtupletypeM G (.sub Id.i_typing_Tuple [.base Id.i_int, .base Id.i_str]) = true ∧
+    isfixedtupletypeM G (.sub Id.i_tuple [.base Id.i_int, .base Id.i_Ellipsis]) = false := by decide +kernel
+example : instantiableM G (originM G (.sub Id.i_collections_abc_Set [.base Id.i_int])) = true ∧
+    (originM G (.sub Id.i_collections_abc_Set [.base Id.i_int])).isBaseId Id.i_set = true := by decide +kernel
+example : ordinaryId G Id.i_user_DC = true ∧ ordinaryId G G.literalId = false := by decide +kernel
 
 end Typelib.C17
